@@ -119,7 +119,7 @@ def run(ctx: common.Ctx):
         c01_kernel = None
     n = 1500 if ctx.thorough else 240
     progs, jobs = build_jobs(ctx, n, runs_per=3 if ctx.thorough else 1, want_source=True,
-                             want_dump=c01_kernel is not None)
+                             kir_orders=4 if ctx.thorough else 2, kir_seed=ctx.seed, want_wire=True)
     results = cexec.run_jobs(ctx, jobs)
     dis = 0
     opcount: dict[str, int] = {}
